@@ -531,11 +531,33 @@ theorem sim_storeSet {σ : Sh} {s t : St} (hR : StR σ s t) (e : Nat) (name : St
     · exact this.2 k e' n' h1
     · subst h1; simp [notRef] at hnr
 
+/-- both runs see the same answer to "the top level frame binds `name` to a function" -/
+theorem rootFnOf_ren {σ : Sh} {s t : St} (hR : StR σ s t) (name : String) : rootFnOf s name = rootFnOf t name := by
+  unfold rootFnOf
+  rw [hR.root]
+  cases hte : t.frames[t.root]? with
+  | none => rw [hR.none hte]
+  | some ft =>
+    obtain ⟨fs, hfs, hfr⟩ := hR.frames t.root ft hte
+    rw [hfs]
+    dsimp only
+    rw [hfr.store, lookupStore_ren, hfr.depth]
+    cases lookupStore ft.store name with
+    | none => rfl
+    | some o => simp only [Option.map, isFuncObj_ren]
+
+theorem sim_rootBindsFunc_bind {σ : Sh} {s t : St} (hR : StR σ s t) (name : String) {f g : Bool → M α} {Q : α → α → Prop}
+    (h : SimAt σ (f (rootFnOf t name)) (g (rootFnOf t name)) s t Q) :
+    SimAt σ (rootBindsFunc name >>= f) (rootBindsFunc name >>= g) s t Q := by
+  refine SimAt.bind_read (runM_rootBindsFunc name s) (runM_rootBindsFunc name t) ?_
+  rw [rootFnOf_ren hR]; exact h
+
 theorem sim_envCreate {σ : Sh} {s t : St} (hR : StR σ s t) (e : Nat) (name : String) (val : Obj) :
     SimAt σ (envCreate (sh σ e) name (ren σ val)) (envCreate e name val) s t (QO σ) := by
   unfold envCreate
   refine SimAt.bind (sim_valueOf hR val) ?_
   rintro a v s1 t1 hR1 ⟨rfl, hnr⟩
+  refine sim_rootBindsFunc_bind hR1 name ?_
   refine SimAt.bind (Q := fun _ _ => True) ?_ (fun _ _ s2 t2 hR2 _ => SimAt.pure hR2 rfl)
   exact sim_storeSet hR1 e name hnr _ _ (fun f => ⟨rfl, rfl, rfl, rfl, rfl, rfl, rfl⟩)
     (fun f => ⟨rfl, rfl, rfl, rfl, rfl, rfl, rfl⟩) (fun fs ft h1 h2 => by simp only [h1, h2])
@@ -551,6 +573,7 @@ theorem sim_envStoreAt {σ : Sh} {s t : St} (hR : StR σ s t) (w e : Nat) (name 
   rw [this]
   refine SimAt.bind (sim_functionChanged hR w _) ?_
   intro _ _ s1 t1 hR1 _
+  refine sim_rootBindsFunc_bind hR1 name ?_
   refine SimAt.bind (Q := fun _ _ => True) ?_ (fun _ _ s2 t2 hR2 _ => SimAt.pure hR2 rfl)
   exact sim_storeSet hR1 e name hnr _ _ (fun f => ⟨rfl, rfl, rfl, rfl, rfl, rfl, rfl⟩)
     (fun f => ⟨rfl, rfl, rfl, rfl, rfl, rfl, rfl⟩) (fun fs ft h1 h2 => by simp only [h1, h2])
@@ -613,6 +636,7 @@ theorem sim_setNoChecks {σ : Sh} {s t : St} (hR : StR σ s t) (e : Nat) (name :
         rw [this]
         refine SimAt.bind (sim_functionChanged hR2 e _) ?_
         intro _ _ s3 t3 hR3 _
+        refine sim_rootBindsFunc_bind hR3 rn ?_
         refine SimAt.bind (Q := fun _ _ => True) ?_ (fun _ _ s4 t4 hR4 _ => SimAt.pure hR4 rfl)
         exact sim_storeSet hR3 re rn hnr _ _ (fun f => ⟨rfl, rfl, rfl, rfl, rfl, rfl, rfl⟩)
           (fun f => ⟨rfl, rfl, rfl, rfl, rfl, rfl, rfl⟩) (fun fs ft _ h2 => h2)
